@@ -55,10 +55,13 @@ type c12Conn struct {
 	id           int
 	closedCh     chan struct{} // closed on the first server-side Close
 	failClose    bool          // Close reports an error (the transport is closed all the same)
+	raceClose    bool          // while the first Close is inside the transport, a second party closes the wrapper
+	wrapper      net.Conn      // what the server calls Close on
+	second       chan struct{} // a Close call arrived while/after another one
 }
 
 func newC12Conn(id, ip int) *c12Conn {
-	c := &c12Conn{id: id, closedCh: make(chan struct{})}
+	c := &c12Conn{id: id, closedCh: make(chan struct{}), second: make(chan struct{}, 1)}
 	c.cond = sync.NewCond(&c.mu)
 	if ip == 0 {
 		c.remote = c12Addr{id}
@@ -98,18 +101,47 @@ func (c *c12Conn) Write(p []byte) (int, error) {
 
 func (c *c12Conn) Close() error {
 	c.mu.Lock()
-	defer c.mu.Unlock()
 	c.closeCalls++
-	if !c.serverClosed {
+	first := !c.serverClosed
+	if first {
 		c.serverClosed = true
 		close(c.closedCh)
 		c.cond.Broadcast()
+	}
+	race, wr := c.raceClose && first, c.wrapper
+	c.mu.Unlock()
+	if !first {
+		// somebody is (or was) already inside this transport's Close
+		select {
+		case c.second <- struct{}{}:
+		default:
+		}
+	}
+	if race && wr != nil {
+		// A second party closes the same (wrapped) connection while the first one is still inside the transport's
+		// Close: started here, and this Close does not return before the second call has either returned or has
+		// itself reached the transport.  No timeout: one of the two always happens.
+		done := make(chan struct{})
+		go func() { wr.Close(); close(done) }()
+		select {
+		case <-done:
+		case <-c.second:
+		}
 	}
 	if c.failClose {
 		return errC12Close
 	}
 	return nil
 }
+
+// setWrapper records the net.Conn value the server uses for this connection (the perIPConn wrapper, or the
+// connection itself when MaxConnsPerIP is off).
+func (c *c12Conn) setWrapper(w net.Conn) {
+	c.mu.Lock()
+	c.wrapper = w
+	c.mu.Unlock()
+}
+
 func (c *c12Conn) LocalAddr() net.Addr              { return &net.TCPAddr{IP: net.IPv4(127, 0, 0, 1), Port: 80} }
 func (c *c12Conn) RemoteAddr() net.Addr             { return c.remote }
 func (c *c12Conn) SetDeadline(time.Time) error      { return nil }
@@ -259,6 +291,7 @@ func newC12World(C, M int, keep bool) *c12World {
 			}
 			if id >= 0 && id < len(w.conns) {
 				w.byConn[c] = w.conns[id]
+				w.conns[id].c.setWrapper(c)
 			}
 			return
 		}
@@ -287,6 +320,7 @@ func newC12World(C, M int, keep bool) *c12World {
 			e = 1
 		}
 		cs.handler.Add(1)
+		cs.c.setWrapper(ctx.Conn())
 		n := w.inside[e].Add(1)
 		for {
 			p := w.peak[e].Load()
@@ -409,7 +443,7 @@ func (w *c12World) waitGone(cs *c12ConnSt, want fasthttp.ConnState) bool {
 }
 
 // open starts a connection and sends one request (malformed if bad); returns false if the harness got stuck.
-func (w *c12World) open(entry byte, ip int, bad, fault bool) bool {
+func (w *c12World) open(entry byte, ip int, bad, fault, race bool) bool {
 	id := len(w.conns)
 	cs := &c12ConnSt{c: newC12Conn(id, ip), entry: entry, ip: ip,
 		entered: make(chan struct{}, 4), release: make(chan byte, 1), hjEnter: make(chan struct{}, 1), hjGo: make(chan struct{}),
@@ -429,6 +463,7 @@ func (w *c12World) open(entry byte, ip int, bad, fault bool) bool {
 		cs.c.failClose = true
 		op += "f"
 	}
+	cs.c.raceClose = race
 	if entry == 's' {
 		select {
 		case w.ln.ch <- cs.c:
@@ -709,7 +744,7 @@ func (w *c12World) finish() {
 				continue
 			}
 			k := len(w.conns)
-			if w.open(entry, ip, false, false) && w.conns[k].parked {
+			if w.open(entry, ip, false, false, false) && w.conns[k].parked {
 				w.do('C', k)
 			}
 		}
@@ -790,7 +825,7 @@ func (w *c12World) monitor(mode byte) (string, string) {
 func init() {
 	Register(&Prop{
 		ID: "C12",
-		Rule: "seq: histories of <=14 ops over {connect via Serve/ServeConn from ip 0..3 (well-formed or malformed request; a quarter of the connections have a transport whose Close() returns an error), release handler (keep-alive / Connection: close / hijack), " +
+		Rule: "seq: histories of <=14 ops over {connect via Serve/ServeConn from ip 0..3 (well-formed or malformed request; a quarter of the connections have a transport whose Close() returns an error, a quarter have a second party closing the server's net.Conn while the first Close is still inside the transport), release handler (keep-alive / Connection: close / hijack), " +
 			"next request, client close, hijack handler returns, owner closes a kept hijacked connection (twice), listener close} for mode in {Serve once, ServeConn only, mixed} x Concurrency 1..3 x MaxConnsPerIP 0..2 x KeepHijackedConns; " +
 			"every op is completed before the next starts (gates, ConnState hook, ServeConn return), counters sampled after each op and validated by the Lean model; " +
 			"after the last op everything is closed and one follow-up connection per used address must pass the per-IP limit; " +
@@ -839,7 +874,7 @@ func init() {
 						if entry == 's' && !w.serving {
 							continue
 						}
-						w.open(entry, x&3, op == 'B', x&8 != 0)
+						w.open(entry, x&3, op == 'B', x&8 != 0, x&16 != 0)
 					case 'L':
 						if w.serving && mode == 'm' {
 							w.stopServe()
@@ -931,7 +966,7 @@ func init() {
 				{'s', 2, 1, 0, "O\x01H\x00O\x01J\x00O\x01"}, {'s', 2, 1, 1, "O\x01H\x00J\x00O\x01K\x00O\x01"}, {'d', 2, 2, 1, "O\x01H\x00J\x00K\x00"},
 				{'m', 1, 0, 0, "O\x00O\x04O\x00O\x04"}, {'d', 2, 1, 0, "O\x09X\x00O\x01"}, {'s', 1, 1, 0, "O\x09O\x0aC\x00O\x01"},
 				{'s', 1, 0, 2, "O\x00C\x00I\x00O\x00O\x00"}, {'s', 2, 1, 2, "O\x01O\x02C\x00C\x01I\x00O\x01O\x02O\x03O\x03"}, {'m', 2, 0, 3, "O\x00O\x00X\x00I\x00O\x00O\x00O\x04"},
-				{'s', 2, 1, 0, "O\x09H\x00J\x00O\x01"}, {'d', 2, 1, 1, "O\x09H\x00J\x00K\x00O\x01"}, {'d', 1, 2, 0, "O\x01O\x0aO\x09"}, {'m', 2, 1, 0, "O\x01O\x05L\x00O\x06"}, {'s', 1, 0, 0, "B\x00O\x00B\x00"},
+				{'s', 2, 1, 0, "O\x09H\x00J\x00O\x01"}, {'d', 3, 2, 0, "O\x11O\x01C\x00O\x01O\x01"}, {'s', 3, 2, 0, "O\x11O\x01R\x00X\x00O\x01O\x01"}, {'d', 3, 2, 1, "O\x11O\x01H\x00J\x00K\x00O\x01O\x01"}, {'d', 2, 1, 1, "O\x09H\x00J\x00K\x00O\x01"}, {'d', 1, 2, 0, "O\x01O\x0aO\x09"}, {'m', 2, 1, 0, "O\x01O\x05L\x00O\x06"}, {'s', 1, 0, 0, "B\x00O\x00B\x00"},
 			}
 			for _, f := range fixed {
 				emit("seq", []byte{f.mode}, N(f.c), N(f.m), N(f.keep), B(f.ops))
@@ -972,6 +1007,9 @@ func init() {
 						if r.Chance(25) {
 							x |= 8
 						}
+						if r.Chance(25) {
+							x |= 16
+						}
 						conns++
 					default:
 						x = r.Intn(conns)
@@ -989,7 +1027,7 @@ func init() {
 				k := 2 + r.Intn(7)
 				ops := make([]byte, k)
 				for j := range ops {
-					ops[j] = byte(r.Intn(16))
+					ops[j] = byte(r.Intn(32))
 				}
 				fl := 0
 				if mode != 'd' && r.Chance(25) {
@@ -1012,7 +1050,7 @@ func c12Burst(w *c12World, mode byte, ops []byte, tags []string) *Case {
 	if w.cleaner && w.serving {
 		// warm the pool up to Concurrency workers, let them go idle and be retired, then burst
 		for j := 0; j < w.C && w.stuck == ""; j++ {
-			w.open('s', 0, false, false)
+			w.open('s', 0, false, false, false)
 		}
 		for j := range w.conns {
 			w.do('C', j)
@@ -1030,6 +1068,7 @@ func c12Burst(w *c12World, mode byte, ops []byte, tags []string) *Case {
 			entered: make(chan struct{}, 4), release: make(chan byte, 1), hjEnter: make(chan struct{}, 1), hjGo: make(chan struct{}),
 			hjRet: make(chan struct{}), state: make(chan fasthttp.ConnState, 4), ret: make(chan error, 1)}
 		css[j].c.failClose = ops[j]&8 != 0
+		css[j].c.raceClose = ops[j]&16 != 0
 		css[j].c.clientWrite([]byte(fmt.Sprintf("GET /%d HTTP/1.1\r\nHost: h\r\n\r\n", j)))
 	}
 	w.mu.Lock()
